@@ -10,6 +10,7 @@ pub mod c05;
 pub mod c06;
 pub mod c07;
 pub mod c11;
+pub mod c12;
 pub mod common;
 
 #[derive(Clone, Copy, Debug, PartialEq, Eq)]
@@ -46,6 +47,7 @@ pub fn make(prop: &str, flavour: &str) -> Option<Box<dyn Monitor>> {
         "C06" => Some(Box::new(c06::C06::new())),
         "C07" => Some(Box::new(c07::C07::new())),
         "C11" => Some(Box::new(c11::C11::new(flavour))),
+        "C12" => Some(Box::new(c12::C12::new())),
         _ => None,
     }
 }
